@@ -18,7 +18,7 @@ pub fn c05_meta(tier: Tier) -> Meta {
     let (ops, st, sc, nmax, cases) = c05_params(tier);
     Meta {
         rule: format!(
-            "Work clause: FftPlanner over an operation-counting element type (f64 payload, thread-local counters; both SIMD planners must decline it) for every n in 2..={ops} x both directions x process/in-place/out-of-place/immutable, one chunk: additions+subtractions+multiplications <= 64*n*log2(n), and the counts on three inputs (zeros, random, huge/tiny mix) must be IDENTICAL (input independence); plus {cases} proptest-drawn structured lengths up to {nmax}. \
+            "Work clause: FftPlanner over an operation-counting element type (f64 payload, thread-local counters; both SIMD planners must decline it) for every n in 2..={ops} x both directions x process/in-place/out-of-place/immutable, one chunk: additions+subtractions+multiplications <= 64*n*log2(n), and the counts on three inputs (zeros, random, huge/tiny mix) must be IDENTICAL (input independence); plus {cases} proptest-drawn structured lengths up to {nmax}; plus safe primes q = 2r+1 (r prime) and their multiples by 2, 3, 4, 6 up to 2^17 (quick, ~120 of them) / 2^19 (thorough, all), and the same work clause with a 256-byte counting element (size_of::<Complex<T>>() = 512) on every n <= 1024/4096 and on the safe primes up to 2^15/2^17. \
              Structural clause: the plan text (plan-report hook) of Auto/Scalar/Sse/Avx x f32/f64 for every n in 2..={st}, parsed independently: no naive `Dft(k)` node with k > 32. \
              Scratch clause: all three advertised scratch lengths <= 12n+64 for every n in 0..={sc} x 4 planners x f32/f64 x 2 directions (transform constructed) and the structured large lengths. \
              The structural clause is additionally decided on what is BUILT: a cfg-guarded construction hook records every naive `Dft` the library constructs, and building the plan of every n in the scratch-clause range (and every history below) must not construct one longer than 32, whatever the plan text says. \
@@ -51,6 +51,48 @@ pub fn c05_worker(ctx: &mut Ctx) {
         }
         if ctx.done() {
             return;
+        }
+    }
+    // work clause for number-theoretic chains: safe primes q (q = 2r+1, r prime -- Rader/Bluestein decisions recurse along such
+    // Cunningham chains) and their small multiples, up to 2^16 (quick) / 2^18 (thorough) with the 8-byte element and up to
+    // 2^15 / 2^17 with the 256-byte element (a planner that budgets by size_of::<Complex<T>>() decides differently there)
+    {
+        let top = ctx.tier.pick(1usize << 16, 1 << 18);
+        let mut safe: Vec<usize> = vec![];
+        let mut q = 23usize;
+        while q <= top {
+            if crate::gen::is_prime(q as u64) && crate::gen::is_prime(((q - 1) / 2) as u64) {
+                safe.push(q);
+            }
+            q += 2;
+        }
+        // all of them in thorough; an even spread of ~120 in quick, always including the largest few
+        let step = if ctx.tier == Tier::Quick { (safe.len() / 120).max(1) } else { 1 };
+        for (i, &q) in safe.iter().enumerate().rev() {
+            // chains of length >= 3 (q, (q-1)/2, (q-3)/4 all prime) are always taken: that is where a recursion shows
+            let chain3 = (q - 3) % 4 == 0 && crate::gen::is_prime(((q - 3) / 4) as u64);
+            if i % step != 0 && i + 6 < safe.len() && !chain3 {
+                continue;
+            }
+            for (mi, m) in [1usize, 2, 3, 4, 6].iter().enumerate() {
+                let n = q * m;
+                if n > top * 2 || !ctx.mine() {
+                    continue;
+                }
+                ctx.exec(&Case::new("C05", "ops", Planner::Auto, Ty::F64, DIRS[(i + mi) % 2], n).with_entry(ENTRIES[(i + mi) % 4]).with_input(InputSpec::fam("uniform", n as u64)).with_p(vec![0]));
+                if (n <= top / 2 || chain3 && n <= top) && (mi == 0 || mi == 1) {
+                    ctx.exec(&Case::new("C05", "ops", Planner::Scalar, Ty::F64, DIRS[(i + mi + 1) % 2], n).with_entry(ENTRIES[(i + mi + 1) % 4]).with_input(InputSpec::fam("uniform", n as u64)).with_p(vec![1]));
+                }
+            }
+            if ctx.done() {
+                return;
+            }
+        }
+        // the fat element on a dense range as well
+        for n in 2..=ctx.tier.pick(1024usize, 4096) {
+            if ctx.mine() {
+                ctx.exec(&Case::new("C05", "ops", Planner::Auto, Ty::F64, DIRS[n % 2], n).with_entry(ENTRIES[n % 4]).with_input(InputSpec::fam("uniform", n as u64)).with_p(vec![1]));
+            }
         }
     }
     // structural clause
